@@ -13,7 +13,11 @@ C2  branch polarity          `if not X: A else: B` -> `if X: B else: A` (same fo
 C3  guard form               `if C: BODY else: raise E` -> `if not C: raise E` ; BODY      and
                              `if C: ...; return/raise  else: REST` -> `if C: ...; return/raise` ; REST
                              `if C: raise E elif D: ...` -> `if C: raise E` ; `if D: ...`   (leading guard arms of a chain)
+C3e tail guard               `if T: WORK; return` ; REST (to the end of the function) -> `if T: WORK else: REST`
 C9  two-armed assignment     `if c: x = A else: x = B` -> `x = A if c else B`; a bare `x: T` inside a function is dropped
+C11 argument style           a call of a repository function is brought into the positional/keyword style that all call sites of
+                             that function have in the calibrated tree (`f(x=a, y=b)` <-> `f(a, b)`); functions whose sites
+                             disagree there, constructors and * / ** calls are left alone
 C4  see-through of helpers   a function the rule tables do not know (absent from the calibrated tree, see
                              known_names.json) whose every reference is a direct call in an inlinable position is
                              inlined at its call sites and dropped; returns in tail position become assignments
@@ -216,6 +220,26 @@ def _assign_pair(st: ast.If):
     return None
 
 
+def _tail_guard_to_else(fn: ast.AST) -> None:
+    """C3e, on a function's top-level body: `if T: WORK; return` ; REST-to-the-end (no value returned anywhere after)
+    -> `if T: WORK else: REST`.  Both say: do WORK or do REST, then fall off the end."""
+    body = fn.body
+    for i, st in enumerate(body):
+        if not (isinstance(st, ast.If) and not st.orelse and len(st.body) >= 2):
+            continue
+        last = st.body[-1]
+        if not (isinstance(last, ast.Return) and (last.value is None or (isinstance(last.value, ast.Constant) and last.value.value is None))):
+            continue
+        rest = body[i + 1 :]
+        if not rest or any(isinstance(x, ast.Return) and x.value is not None and not (isinstance(x.value, ast.Constant) and x.value.value is None) for r in rest for x in ast.walk(r)):
+            continue
+        if any(isinstance(x, (ast.Return,)) for s_ in st.body[:-1] for x in ast.walk(s_)):
+            continue
+        new_if = ast.copy_location(ast.If(test=st.test, body=st.body[:-1], orelse=rest), st)
+        fn.body = body[:i] + _canon_block([new_if])
+        return
+
+
 def _canon_block(stmts: list[ast.stmt], in_function: bool = True) -> list[ast.stmt]:
     """C2 + C3 (+ C9: two-armed assignment -> conditional expression; bare local annotations dropped) on one statement
     list (children first)."""
@@ -267,6 +291,9 @@ def local_canon(tree: ast.Module) -> ast.Module:
     tree = _SliceCalls().visit(tree)
     tree = _IfExpPolarity().visit(tree)
     tree.body = _canon_block(tree.body)
+    for fn in ast.walk(tree):
+        if isinstance(fn, (ast.FunctionDef, ast.AsyncFunctionDef)):
+            _tail_guard_to_else(fn)
     return tree
 
 
@@ -405,6 +432,25 @@ def _end(n: ast.AST) -> tuple[int, int]:
     return (getattr(n, "end_lineno", 0) or 0, getattr(n, "end_col_offset", 0) or 0)
 
 
+def _seq(root: ast.AST) -> dict[int, int]:
+    """Pre-order index of every node (evaluation-order proxy that, unlike line numbers, survives inlining)."""
+    out: dict[int, int] = {}
+
+    def rec(n: ast.AST) -> None:
+        out[id(n)] = len(out)
+        if isinstance(n, (ast.Assign, ast.AnnAssign, ast.AugAssign)):
+            # the value is evaluated before the targets are bound
+            kids = ([n.value] if getattr(n, "value", None) is not None else []) + (list(n.targets) if isinstance(n, ast.Assign) else [n.target])
+            for k in kids:
+                rec(k)
+            return
+        for c in ast.iter_child_nodes(n):
+            rec(c)
+
+    rec(root)
+    return out
+
+
 def _parent_map(root: ast.AST) -> dict[int, ast.AST]:
     out: dict[int, ast.AST] = {}
     for p in ast.walk(root):
@@ -507,7 +553,8 @@ def propagate_locals(fn: ast.AST, known_locals: set[str] | None) -> int:
                     continue
                 parents = _parent_map(fn)
                 calls = [n for n in rest if isinstance(n, ast.Call) and not (isinstance(n.func, ast.Name) and n.func.id in PURE_CALLS)]
-                if any(_pos(c) < _pos(u) and not _is_ancestor(c, u, parents) and not _exclusive(c, u, parents) for u in uses for c in calls):
+                order = _seq(fn)
+                if any(order.get(id(c), 0) < order.get(id(u), 0) and not _is_ancestor(c, u, parents) and not _exclusive(c, u, parents) for u in uses for c in calls):
                     continue
             sub = _Subst({name: stmt.value})
             for i in range(idx + 1, len(block)):
@@ -695,7 +742,8 @@ def loops_to_comprehensions(fn: ast.AST, known_locals: set[str] | None) -> int:
                         own = {x.id for g in comp.generators for x in ast.walk(g.target) if isinstance(x, ast.Name)}
                         if own & tnames:
                             inside |= {id(x) for x in ast.walk(comp) if isinstance(x, ast.Name) and x.id in own}
-                if any(isinstance(x, ast.Name) and x.id in tnames and id(x) not in inside and isinstance(x.ctx, ast.Load) and _pos(x) > _pos(loop) for x in ast.walk(fn)):
+                order = _seq(fn)
+                if any(isinstance(x, ast.Name) and x.id in tnames and id(x) not in inside and isinstance(x.ctx, ast.Load) and order.get(id(x), 0) > order.get(id(loop), 0) for x in ast.walk(fn)):
                     continue
                 gen = ast.comprehension(target=loop.target, iter=loop.iter, ifs=conds, is_async=0)
                 comp = ast.DictComp(key=key, value=val, generators=[gen]) if kind == "dict" else ast.ListComp(elt=val, generators=[gen])
@@ -839,12 +887,31 @@ def _bind_args(h: Helper, call: ast.Call, receiver: ast.expr | None) -> dict[str
     return out
 
 
+def _dead_after(caller: ast.AST, call: ast.Call) -> set[str]:
+    """Names of the caller that are never read after the call site (the call not being inside a loop of the caller)."""
+    if not isinstance(caller, (ast.FunctionDef, ast.AsyncFunctionDef)):
+        return set()
+    parents = _parent_map(caller)
+    n = call
+    while id(n) in parents:
+        n = parents[id(n)]
+        if isinstance(n, (ast.For, ast.While, ast.AsyncFor, ast.Lambda, ast.ListComp, ast.SetComp, ast.DictComp, ast.GeneratorExp)):
+            return set()
+        if n is not caller and isinstance(n, (ast.FunctionDef, ast.AsyncFunctionDef)):
+            return set()
+    order = _seq(caller)
+    inside = {id(x) for x in ast.walk(call)}
+    pos = max(order[i] for i in inside if i in order)
+    later_loads = {x.id for x in ast.walk(caller) if isinstance(x, ast.Name) and isinstance(x.ctx, ast.Load) and id(x) not in inside and order.get(id(x), 0) > pos}
+    return _all_names(caller) - later_loads
+
+
 def _identity_binding(h: Helper, call: ast.Call, receiver: ast.expr | None) -> bool:
     b = _bind_args(h, call, receiver)
     return b is not None and all(isinstance(v, ast.Name) and v.id == p for p, v in b.items())
 
 
-def _instantiate(h: Helper, call: ast.Call, receiver: ast.expr | None, caller: ast.AST, uid: int, target_name: str | None = None, allow_paths: bool = False) -> tuple[list[ast.stmt], list[ast.stmt]] | None:
+def _instantiate(h: Helper, call: ast.Call, receiver: ast.expr | None, caller: ast.AST, uid: int, target_name: str | None = None, allow_paths: bool = False, caller_dead_after: bool = False) -> tuple[list[ast.stmt], list[ast.stmt]] | None:
     """(prelude statements binding complex arguments, helper body with names substituted); returns kept as Return."""
     binding = _bind_args(h, call, receiver)
     if binding is None:
@@ -861,14 +928,22 @@ def _instantiate(h: Helper, call: ast.Call, receiver: ast.expr | None, caller: a
     caller_names = _all_names(caller)
     assigned_in_helper = set(_bound_names(h.node))
     # locals of the helper that clash with names of the caller are renamed
-    # (a helper local that has the very name the call's result is assigned to may simply be that variable)
-    ren = {n: f"{n}__{h.node.name.strip('_')}{uid}" for n in assigned_in_helper if n in caller_names and n not in binding and n != target_name}
+    # (a helper local that has the very name the call's result is assigned to may simply be that variable; so may one whose
+    # namesake in the caller is dead from the call on: never read after it, and the call is not inside a loop)
+    dead = _dead_after(caller, call)
+    ren = {n: f"{n}__{h.node.name.strip('_')}{uid}" for n in assigned_in_helper if n in caller_names and n not in binding and n != target_name and n not in dead}
     prelude: list[ast.stmt] = []
     subst: dict[str, ast.expr] = {}
+    name_args = [v.id for v in binding.values() if isinstance(v, ast.Name)]
     for p, v in binding.items():
         direct = isinstance(v, (ast.Name, ast.Constant)) or ((h.is_expr or allow_paths) and _simple_arg(v)) or (allow_paths and isinstance(v, ast.Call))
         if direct and p not in assigned_in_helper:
             subst[p] = v
+        elif caller_dead_after and isinstance(v, ast.Name) and name_args.count(v.id) == 1 and (v.id == p or v.id not in assigned_in_helper):
+            # `return helper(x)`: the caller's x is dead once the helper's body has run, so the helper may use (and re-bind)
+            # the caller's variable itself
+            if v.id != p:
+                ren[p] = v.id
         else:
             # bound to a fresh local (unknown to every table, so C5 sees through it whenever that is exact)
             nm = f"{p}__{h.node.name.strip('_')}{uid}"
@@ -921,10 +996,17 @@ class _Inliner:
     def run(self) -> None:
         for _ in range(4):
             all_defs = list(self.defs())
-            names: dict[str, int] = {}
+            # a method name must be unique among all methods (an attribute call could reach any class); a module-level
+            # function only within its own module (it is referenced by bare name there; imports elsewhere block inlining)
+            names: dict[tuple, int] = {}
             for q, n, c, m, holder in all_defs:
-                names[n.name] = names.get(n.name, 0) + 1
-            cands = [Helper(q, n, c, m) for q, n, c, m, holder in all_defs if q not in self.known and names[n.name] == 1 and not (n.name.startswith("__") and n.name.endswith("__"))]
+                key = ("method", n.name) if c is not None else (m, n.name)
+                names[key] = names.get(key, 0) + 1
+                if c is None:
+                    names[("method", n.name)] = names.get(("method", n.name), 0)
+            # a function the tables know *by name* that merely moved (to a base class, to another module) is still known
+            known_names = {q.rsplit(":", 1)[1].split(".")[-1] for q in self.known if ".<" not in q}
+            cands = [Helper(q, n, c, m) for q, n, c, m, holder in all_defs if q not in self.known and n.name not in known_names and names[("method", n.name) if c is not None else (m, n.name)] == 1 and not (n.name.startswith("__") and n.name.endswith("__"))]
             cands = [h for h in cands if h.inlinable]
             progress = False
             for h in cands:
@@ -939,10 +1021,14 @@ class _Inliner:
         for mod, tree in self.trees.items():
             for n in ast.walk(tree):
                 if isinstance(n, ast.Name) and n.id == nm and h.cls is None:
-                    yield mod, n
+                    if mod == h.module:
+                        yield mod, n
                 elif isinstance(n, ast.Attribute) and n.attr == nm:
-                    yield mod, n
-                elif isinstance(n, ast.alias) and n.name == nm:
+                    if h.cls is not None or (isinstance(n.value, ast.Name) and n.value.id == h.module.split(".")[-1]):
+                        yield mod, n
+                elif isinstance(n, ast.ImportFrom) and h.cls is None and any(a.name == nm for a in n.names) and (n.module or "").split(".")[-1] == h.module.split(".")[-1]:
+                    yield mod, n  # imported elsewhere: not a call -> blocks inlining
+                elif isinstance(n, ast.alias) and n.name == nm and h.cls is not None:
                     yield mod, n
                 elif isinstance(n, ast.Constant) and n.value == nm:
                     yield mod, n  # getattr(self, "name") / __all__
@@ -1049,7 +1135,7 @@ class _Inliner:
         # a context decorator of the helper (torch.no_grad()) must already be in force in the caller
         if h.other_decorators and not set(h.other_decorators) <= {ast.unparse(d) for d in getattr(fn, "decorator_list", [])}:
             return None
-        inst = _instantiate(h, call, receiver, fn, self.uid, tname)
+        inst = _instantiate(h, call, receiver, fn, self.uid, tname, caller_dead_after=isinstance(stmt, ast.Return) and stmt.value is call)
         if inst is None:
             return None
         prelude, body = inst
@@ -1355,6 +1441,167 @@ def _rename_scope(node: ast.AST, mapping: dict[str, str]) -> None:
         g.ifs = [r.visit(c) for c in g.ifs]
 
 
+# ------------------------------------------------------------------------------------------------ C11 argument style of internal calls
+def _signatures(trees: dict[str, ast.Module]) -> tuple[dict[tuple, list[list[str] | None]], set[str]]:
+    sigs: dict[tuple, list[list[str] | None]] = {}
+
+    def params_of(fn: ast.AST, is_method: bool) -> list[str] | None:
+        a = fn.args
+        if a.posonlyargs or a.vararg:
+            return None
+        names = [x.arg for x in a.args]
+        decos = [ast.unparse(d) for d in fn.decorator_list]
+        if "property" in decos:
+            return None
+        if is_method and "staticmethod" not in decos:
+            names = names[1:]
+        return names
+
+    for tree in trees.values():
+        for st in tree.body:
+            if isinstance(st, (ast.FunctionDef, ast.AsyncFunctionDef)):
+                sigs.setdefault(("func", st.name), []).append(params_of(st, False))
+                for sub in ast.walk(st):
+                    if sub is not st and isinstance(sub, (ast.FunctionDef, ast.AsyncFunctionDef)):
+                        sigs.setdefault(("func", sub.name), []).append(params_of(sub, False))
+            elif isinstance(st, ast.ClassDef):
+                for s2 in st.body:
+                    if isinstance(s2, (ast.FunctionDef, ast.AsyncFunctionDef)):
+                        sigs.setdefault(("method", s2.name), []).append(params_of(s2, True))
+                        for sub in ast.walk(s2):
+                            if sub is not s2 and isinstance(sub, (ast.FunctionDef, ast.AsyncFunctionDef)):
+                                sigs.setdefault(("func", sub.name), []).append(params_of(sub, False))
+    class_names = {st.name for tree in trees.values() for st in tree.body if isinstance(st, ast.ClassDef)}
+    return sigs, class_names
+
+
+def _internal_calls(trees: dict[str, ast.Module]):
+    """(call, callee key, positional parameter list) for calls whose repository callee is determined: `self.m(...)` and
+    `Class.m(...)` resolve through the class hierarchy (by class name); other calls only when every definition of that name
+    has one and the same positional parameter list."""
+    sigs, class_names = _signatures(trees)
+    classes: dict[str, ast.ClassDef] = {st.name: st for tree in trees.values() for st in tree.body if isinstance(st, ast.ClassDef)}
+
+    def method_in(cname: str, mname: str, seen: frozenset = frozenset()) -> tuple[str, ast.AST] | None:
+        c = classes.get(cname)
+        if c is None or cname in seen:
+            return None
+        for st in c.body:
+            if isinstance(st, (ast.FunctionDef, ast.AsyncFunctionDef)) and st.name == mname:
+                return cname, st
+        for bexpr in c.bases:
+            bname = bexpr.id if isinstance(bexpr, ast.Name) else (bexpr.value.id if isinstance(bexpr, ast.Subscript) and isinstance(bexpr.value, ast.Name) else None)
+            if bname:
+                r = method_in(bname, mname, seen | {cname})
+                if r is not None:
+                    return r
+        return None
+
+    def sig_of(fn: ast.AST, bound: bool) -> list[str] | None:
+        a = fn.args
+        if a.posonlyargs or a.vararg:
+            return None
+        decos = [ast.unparse(d) for d in fn.decorator_list]
+        if "property" in decos:
+            return None
+        names = [x.arg for x in a.args]
+        return names[1:] if bound and "staticmethod" not in decos else names
+
+    def enclosing_classes():
+        for tree in trees.values():
+            for st in tree.body:
+                if isinstance(st, ast.ClassDef):
+                    yield st.name, st
+                else:
+                    yield None, st
+
+    for cname, holder in enclosing_classes():
+        for call in ast.walk(holder):
+            if not isinstance(call, ast.Call) or any(isinstance(a, ast.Starred) for a in call.args) or any(k.arg is None for k in call.keywords):
+                continue
+            f = call.func
+            key = params = None
+            if isinstance(f, ast.Attribute) and isinstance(f.value, ast.Name) and not f.attr.startswith("__"):
+                owner = cname if f.value.id in ("self", "cls") else (f.value.id if f.value.id in classes else None)
+                if owner is not None:
+                    r = method_in(owner, f.attr)
+                    if r is not None:
+                        params = sig_of(r[1], True)
+                        # the style table is per method *name and defining hierarchy root*: siblings overriding one abstract
+                        # method share their call sites' style
+                        key = f"method:{f.attr}"
+            if params is None:
+                if isinstance(f, ast.Name):
+                    k2 = ("func", f.id)
+                elif isinstance(f, ast.Attribute):
+                    k2 = ("method", f.attr)
+                    if k2 not in sigs and ("func", f.attr) in sigs:
+                        k2 = ("func", f.attr)
+                else:
+                    continue
+                name = k2[1]
+                if name.startswith("__") or name in class_names:
+                    continue
+                cands = sigs.get(k2)
+                if not cands or any(c is None for c in cands) or any(c != cands[0] for c in cands):
+                    continue
+                params, key = cands[0], f"{k2[0]}:{k2[1]}"
+            if params is None or len(call.args) > len(params) or any(k.arg not in params for k in call.keywords):
+                continue
+            yield call, key, params
+
+
+def call_styles(trees: dict[str, ast.Module]) -> dict[str, int]:
+    """For each internally called function whose call sites agree: how many leading parameters are passed positionally
+    (the rest by keyword).  Callees whose sites disagree are absent.  Styles are kept per parameter *position* (sibling
+    implementations of one method may name a parameter differently)."""
+    seen: dict[str, dict[int, set[str]]] = {}
+    arity: dict[str, int] = {}
+    for call, key, params in _internal_calls(trees):
+        arity[key] = max(arity.get(key, 0), len(params))
+        d = seen.setdefault(key, {})
+        for i, _ in enumerate(call.args):
+            d.setdefault(i, set()).add("pos")
+        for k in call.keywords:
+            d.setdefault(params.index(k.arg), set()).add("kw")
+    out: dict[str, int] = {}
+    for key, d in seen.items():
+        if any(len(v) != 1 for v in d.values()):
+            continue
+        styles = [next(iter(d[i])) if i in d else None for i in range(arity[key])]
+        npos = 0
+        while npos < len(styles) and styles[npos] == "pos":
+            npos += 1
+        if any(st == "pos" for st in styles[npos:]):
+            continue
+        out[key] = npos
+    return out
+
+
+def restyle_internal_calls(trees: dict[str, ast.Module], styles: dict[str, int]) -> int:
+    """C11: a call of a repository function is brought into the argument style (how many leading parameters positional, the
+    rest by keyword) that all call sites of that function have in the calibrated tree."""
+    done = 0
+    for call, key, params in _internal_calls(trees):
+        if key not in styles:
+            continue
+        want_pos = styles[key]
+        provided = {params[i]: a for i, a in enumerate(call.args)}
+        provided.update({k.arg: k.value for k in call.keywords})
+        new_args: list[ast.expr] = []
+        i = 0
+        while i < want_pos and i < len(params) and params[i] in provided:
+            new_args.append(provided[params[i]])
+            i += 1
+        rest = [p for p in provided if p not in params[:i]]
+        order = [params[j] for j in range(len(call.args)) if params[j] in rest] + [k.arg for k in call.keywords if k.arg in rest]
+        new_kw = [ast.keyword(arg=p, value=provided[p]) for p in order]
+        if len(new_args) != len(call.args) or [k.arg for k in new_kw] != [k.arg for k in call.keywords]:
+            call.args, call.keywords = new_args, new_kw
+            done += 1
+    return done
+
+
 # ------------------------------------------------------------------------------------------------ driver
 def _direct_nested_defs(node: ast.AST):
     stack = list(ast.iter_child_nodes(node))
@@ -1400,7 +1647,7 @@ def snapshot(trees: dict[str, ast.Module]) -> dict:
         for q, fn in _functions_with_quals(mod, tree):
             locals_, scopes = ordered_binders(fn)
             funcs[q] = {"locals": locals_, "scopes": [n for _, n in scopes]}
-    return {"functions": funcs}
+    return {"functions": funcs, "call_styles": call_styles(trees)}
 
 
 def canonicalize(trees: dict[str, ast.Module], known: dict | None) -> dict:
@@ -1416,10 +1663,16 @@ def canonicalize(trees: dict[str, ast.Module], known: dict | None) -> dict:
         for mod, tree in trees.items():
             for q, fn in list(_functions_with_quals(mod, tree)):
                 inner_known = {k.rsplit(".<", 1)[1][:-1] for k in kf if k.startswith(q + ".<")}
-                kl = set(kf[q]["locals"]) if q in kf else None
+                entry = kf.get(q)
+                if entry is None and ".<" not in q:
+                    # a known function that moved (to a base class / another module) keeps its name tables
+                    same = [v for k, v in kf.items() if ".<" not in k and k.rsplit(":", 1)[1].split(".")[-1] == q.rsplit(":", 1)[1].split(".")[-1]]
+                    if same:
+                        entry = {"locals": same[0]["locals"], "scopes": same[0]["scopes"], "_all_locals": set().union(*[set(v["locals"]) for v in same])}
+                kl = (entry.get("_all_locals") or set(entry["locals"])) if entry is not None else None
                 for _ in range(6):
-                    if q in kf:  # names first: a renamed known local must not be mistaken for an unknown one
-                        log["renamed_binders"] += canonical_names(fn, kf[q])
+                    if entry is not None:  # names first: a renamed known local must not be mistaken for an unknown one
+                        log["renamed_binders"] += canonical_names(fn, entry)
                     n = nested_defs_to_lambdas(fn, inner_known)
                     log["lambdas_from_defs"] += n
                     k = propagate_locals(fn, kl) + forward_temporaries(fn, kl)
@@ -1428,12 +1681,13 @@ def canonicalize(trees: dict[str, ast.Module], known: dict | None) -> dict:
                     log["loops_to_comprehensions"] += c
                     if not (n or k or c):
                         break
-                if q in kf:
-                    log["renamed_binders"] += canonical_names(fn, kf[q])
+                if entry is not None:
+                    log["renamed_binders"] += canonical_names(fn, entry)
             trees[mod] = _SliceCalls().visit(tree)
         # inlining / propagation can expose new guard / polarity forms
         for mod in list(trees):
             trees[mod] = local_canon(trees[mod])
+    log["restyled_calls"] = restyle_internal_calls(trees, known.get("call_styles", {})) if known is not None else 0
     for tree in trees.values():
         ast.fix_missing_locations(tree)
     return log
